@@ -1413,6 +1413,86 @@ func (e *Exec) do(line string) string {
 			es = "error"
 		}
 		return fmt.Sprintf("ok %d err=%s", len(l), es)
+	case "pq":
+		// pq <A> <prefix> <P> <mksecret|mkcrown|mkboth|del|expire> <k1,k2,…>: a query by interface A whose consumer does
+		// not read (the storage's executor runs until the result buffer is full and it is parked in its hand-over),
+		// then interface P re-flags (deletes, sets an expiry in the past on) the listed records and returns, then the
+		// consumer reads the stream to its end.
+		// Answers the buffer capacity, whether the buffer was full when the re-flag began, the result of the
+		// re-flag, and the records IN ORDER OF ARRIVAL, each rendered when it is received.
+		if len(f) != 6 || e.ifs[f[1]] == nil || e.ifs[f[3]] == nil {
+			return "bad-op"
+		}
+		pfx, ok := DecKey(f[2])
+		if !ok || (f[4] != "mksecret" && f[4] != "mkcrown" && f[4] != "mkboth" && f[4] != "del" && f[4] != "expire") {
+			return "bad-op"
+		}
+		var keys []string
+		for _, t := range strings.Split(f[5], ",") {
+			k, ok := DecKey(t)
+			if !ok {
+				return "bad-op"
+			}
+			keys = append(keys, k)
+		}
+		q, ok := e.BuildQuery(e.db, pfx, "-")
+		if !ok {
+			return "bad-op"
+		}
+		it, err := e.ifs[f[1]].Query(q)
+		if err != nil {
+			return ErrStr(err)
+		}
+		capN := cap(it.Next)
+		parked := 0
+	wait:
+		for t0 := time.Now(); time.Since(t0) < 300*time.Millisecond; time.Sleep(100 * time.Microsecond) {
+			if len(it.Next) == capN {
+				parked = 1
+				break
+			}
+			select {
+			case <-it.Done: // the executor has finished: fewer records than the buffer holds
+				break wait
+			default:
+			}
+		}
+		reflag := "ok"
+		p := e.ifs[f[3]]
+		for _, k := range keys {
+			var errs []error
+			switch f[4] {
+			case "del":
+				errs = append(errs, p.Delete(e.db+":"+k))
+			case "expire":
+				errs = append(errs, p.SetAbsoluteExpiry(e.db+":"+k, 5))
+			default:
+				if f[4] != "mkcrown" {
+					errs = append(errs, p.MakeSecret(e.db+":"+k))
+				}
+				if f[4] != "mksecret" {
+					errs = append(errs, p.MakeCrownJewel(e.db+":"+k))
+				}
+			}
+			for _, err := range errs {
+				if err != nil && reflag == "ok" {
+					reflag = ErrStr(err)
+				}
+			}
+		}
+		var got []string
+		for r := range it.Next {
+			got = append(got, e.ShowRec(r))
+		}
+		es := "nil"
+		if ierr := it.Err(); ierr != nil {
+			es = "error"
+		}
+		out := fmt.Sprintf("ok cap=%d parked=%d reflag=%s n=%d", capN, parked, reflag, len(got))
+		if len(got) > 0 {
+			out += " " + strings.Join(got, " ")
+		}
+		return out + " err=" + es
 	case "flush":
 		i := needIf(2)
 		if i == nil {
